@@ -496,3 +496,50 @@ def make_conflicts(overlaps):
     def conflicts(a: str, b: str) -> bool:
         return a == b or any(a in o and b in o for o in sets)
     return conflicts
+
+
+# ------------------------------------------------------------------------------------------------
+# what one CommandManager._cancel_command call left behind (C10 classifier only; additive, nothing above uses this).
+# The wrapper records and delegates, the result and every exception are passed through unchanged.
+CANCEL_CALLS: list[tuple] = []   # (tick, request instance id, request name, command instance id | None,
+#                                   command cancelled after the call, command finalized after the call,
+#                                   Tracking.mark_cancelled raised during the call)
+_cancel_call_hook = False
+
+
+def install_cancel_call_hook():
+    """Needs install_request_hooks (CANCEL_MARK_FAILS tells whether mark_cancelled raised inside the call)."""
+    global _cancel_call_hook
+    if _cancel_call_hook:
+        return
+    _cancel_call_hook = True
+    from openpectus.engine.command_manager import CommandManager
+    orig = CommandManager._cancel_command
+
+    def _cancel_command(self, cmd_request, finalize=True):
+        n0 = len(CANCEL_MARK_FAILS)
+        try:
+            cmd = self._get_command_instance(cmd_request.name)      # lookup by name, exactly as the real method does
+        except Exception:
+            cmd = None
+        try:
+            return orig(self, cmd_request, finalize)
+        finally:
+            CANCEL_CALLS.append((R.TICK[0], cmd_request.instance_id, cmd_request.name,
+                                 getattr(cmd, "instance_id", None),
+                                 bool(cmd is not None and cmd.is_cancelled()),
+                                 bool(cmd is not None and cmd.is_finalized()),
+                                 len(CANCEL_MARK_FAILS) > n0))
+    CommandManager._cancel_command = _cancel_command
+
+
+def cancel_refused_without_cancelling() -> set:
+    """instance ids (of the request and of the command object found under its name) of _cancel_command calls in which
+    Tracking.mark_cancelled raised and the command object was left NOT cancelled: the cancellation was aborted before
+    command.cancel() ran, so nothing will ever cancel or finalize the command on behalf of that call."""
+    out: set = set()
+    for c in CANCEL_CALLS:
+        if c[6] and c[3] is not None and not c[4]:
+            out.add(c[1])
+            out.add(c[3])
+    return out
